@@ -155,6 +155,14 @@ func vfSetBodyHeaders(h http.Header, spec vfBodySpec, response bool) {
 			h.Set("Grpc-Encoding", spec.Encoding)
 		}
 	}
+	if spec.Stray != "" {
+		switch _, proto := vfProtocolOf(vfBodySpec{ContentType: spec.ContentType}); proto {
+		case "connect":
+			h.Set("Grpc-Encoding", spec.Stray)
+		case "grpc", "grpcweb":
+			h.Set("Connect-Content-Encoding", spec.Stray)
+		}
+	}
 }
 
 // ---- client side ----
@@ -492,6 +500,9 @@ func vfGenBody(t *rapid.T, label string, response bool) vfBodySpec {
 	}
 	if rapid.Bool().Draw(t, label+"-hasenc") {
 		spec.Encoding = rapid.SampledFrom(verifkit.EncodingNames).Draw(t, label+"-enc")
+	}
+	if rapid.IntRange(0, 4).Draw(t, label+"-stray") == 0 {
+		spec.Stray = rapid.SampledFrom(verifkit.EncodingNames).Draw(t, label+"-strayenc")
 	}
 	_, proto := vfProtocolOf(vfBodySpec{ContentType: spec.ContentType})
 	var buf bytes.Buffer
